@@ -617,7 +617,8 @@ def monotone_restamp(case, files=True, dirs=True):
             fsmax = st
             if files and op['kind'] != 'delete':
                 op['mt'] = st
-            if dirs and op['kind'] in ('write', 'write_via_rename', 'delete', 'rename', 'mkdir'):
+            if dirs and (op['kind'] in ('write', 'write_via_rename', 'delete', 'rename', 'mkdir') or 'dmt' in op):
+                # every op that stamps the parent directory (also a utime that carries a dmt)
                 op['dmt'] = st
             out.append(op)
             continue
